@@ -203,6 +203,8 @@ func c14World(rc *kernel.RunCtx) {
 	if dev {
 		coldDevCache()
 	}
+	// once handles nobody has used yet: their first use happens in the concurrent phase
+	u2 := newUniverse(3)
 	ntasks := t.Range(2, rc.Param("max_tasks", 6), "ntasks")
 	faultsLeft := t.Choose(3, "nfaults")
 	plan := make([][]*c14render, ntasks)
@@ -225,14 +227,14 @@ func c14World(rc *kernel.RunCtx) {
 	for i := range plan {
 		i := i
 		name := fmt.Sprintf("render#%d", i)
-		k.Go(func() {
+		k.GoNamed(name, func() {
 			for j, r := range plan[i] {
 				k.Park(name, "start", fmt.Sprint(j), nil)
 				park := func(kind string, n int) { k.Park(name, kind, fmt.Sprint(n), nil) }
 				switch r.Kind {
 				case "render":
 					hook := func(kind, key string) { k.Park(name, kind, key, nil) }
-					o := renderOnce(u, specs[r.Spec], kn, r.Fault, r.FailAt, -1, false, hook, park)
+					o := renderOnce(u2, specs[r.Spec], kn, r.Fault, r.FailAt, -1, false, hook, park)
 					r.got, r.err = o.got, o.err
 					r.fired = o.w.fired || o.env.Fired != ""
 				case "shared":
@@ -262,6 +264,7 @@ func c14World(rc *kernel.RunCtx) {
 		})
 	}
 	// the schedule
+	pk := newPicker(t)
 	for {
 		k.Quiesce()
 		ps := k.ParkedList()
@@ -292,7 +295,7 @@ func c14World(rc *kernel.RunCtx) {
 		}
 		i := 0
 		if k.Steps < maxSteps {
-			i = t.Choose(len(ps), "sched")
+			i = pk.pick(t, ps)
 		}
 		k.Run(ps[i], kernel.Decision{})
 	}
